@@ -117,6 +117,13 @@ func run(c *h.Ctx, cs chain.Case) {
 	if dh := chain.DecideIdentityHook(b); dh.Allowed && !r.R[7] {
 		c.Fail("C02/hook/widened-command-allowed", "ExecutionAllowedWithArgsHook returned nil although the command is widened\ninvocation cmd %q, link cmds %q", cs.Inv.Cmd, cmds(cs))
 	}
+	if !r.R[7] {
+		for _, hk := range chain.OddHooks {
+			if do := chain.DecideOddHook(b, hk); do.Allowed {
+				c.Fail("C02/hook-"+hk+"/widened-command-allowed", "ExecutionAllowedWithArgsHook (hook: %s) returned nil although the command is widened\ninvocation cmd %q, link cmds %q", hk, cs.Inv.Cmd, cmds(cs))
+			}
+		}
+	}
 	if d.Allowed && !r.R[7] {
 		where := "invocation vs leaf delegation"
 		if off > 0 {
